@@ -205,7 +205,9 @@ def run_case(trimesh, case, rs):
     rec = {"op": op, "o": o, "vis": vis, "hasn": hasn, "pre": pre, "exc": "",
            "pos": am["pos"], "faces": am["faces"], "uvc": am["uvc"], "nc": am["nc"],
            "mk": case.get("mk", ""), "mask": case.get("mask", []), "inv": case.get("inv", []),
-           "seq": case.get("seq", []), "outs": [], "cat": [], "how": case.get("how", "")}
+           "seq": case.get("seq", []), "outs": [], "cat": [], "how": case.get("how", ""),
+           "k": case["k"], "nf_kind": am["nf_kind"],
+           "cut": [len(case["parts"][0]["pos"]), len(case["parts"][0]["faces"])] if op == "concatenate" else []}
     stage = "build"
     try:
         if op == "concatenate":
@@ -558,8 +560,8 @@ def work_items(tier):
     meshes = []
     if tier == "thorough":
         meshes += [("exh", m) for m in exhaustive_meshes(rs, 2, True)]
-        meshes += [("rnd", sample_mesh(rs, 6, 4)) for _ in range(22000)]
-        meshes += [("mid", sample_mesh(rs, 8, 7)) for _ in range(1500)]
+        meshes += [("rnd", sample_mesh(rs, 6, 4)) for _ in range(18000)]
+        meshes += [("mid", sample_mesh(rs, 8, 6)) for _ in range(1000)]
         meshes += [("big", big_mesh(rs)) for _ in range(1500)]
     else:
         meshes += [("exh", m) for m in exhaustive_meshes(rs, 2, False)]
@@ -609,6 +611,25 @@ def deviation_of(c, clause):
     return None
 
 
+def replay_cases(path):
+    """the cases of a replay file written by an earlier run, rebuilt from the recorded inputs"""
+    import json
+    out = []
+    for v in json.load(open(path))["violations"]:
+        d = v["detail"]
+        am = {"pos": d["pos"], "faces": d["faces"], "uvc": d["uvc"], "nc": d["nc"], "nf_kind": d["nf_kind"]}
+        case = {"am": am, "op": d["op"], "o": d["o"], "vis": d["vis"], "hasn": d["hasn"], "pre": d["pre"], "k": d["k"],
+                "mk": d["mk"], "mask": d["mask"], "inv": d["inv"], "seq": d["seq"], "how": d["how"], "family": "replay"}
+        if d["op"] == "concatenate":
+            na, nfa = d["cut"]
+            a = {"pos": d["pos"][:na], "uvc": d["uvc"][:na], "nc": d["nc"][:na], "faces": d["faces"][:nfa], "nf_kind": d["nf_kind"]}
+            b = {"pos": d["pos"][na:], "uvc": d["uvc"][na:], "nc": d["nc"][na:], "nf_kind": d["nf_kind"],
+                 "faces": [[x - na for x in f] for f in d["faces"][nfa:]]}
+            case["parts"] = (a, b)
+        out.append(case)
+    return out
+
+
 def input_stats(cases):
     st = {"duplicated_position": 0, "unreferenced_slot": 0, "repeated_face_slot_set": 0, "repeated_slot_in_face": 0,
           "non_finite_slot": 0, "quarter_unit_twin": 0, "collinear_position_used": 0, "geometric_duplicate_face": 0}
@@ -647,8 +668,13 @@ def main(argv):
     V = Verdict(PROP, tier)
     import_trimesh()
     check_clause_names()
-    cases, fam = work_items(tier)
-    if len(cases) < 5000:
+    replay = "--replay" in argv
+    if replay:
+        cases = replay_cases(argv[argv.index("--replay") + 1])
+        fam = {"replay": len(cases)}
+    else:
+        cases, fam = work_items(tier)
+    if len(cases) < (1 if replay else 5000):
         raise MachineryError("too few cases enumerated")
     items = list(enumerate(cases))
     round_size = 120000
@@ -665,7 +691,7 @@ def main(argv):
         recs = [c for r in res for c in r]
         if len(recs) != len(part):
             raise MachineryError("lost records")
-        slim = [{k: v for k, v in c.items() if k not in ("pre", "how")} for c in recs]
+        slim = [{k: v for k, v in c.items() if k not in ("pre", "how", "k", "nf_kind", "cut")} for c in recs]
         rejects, st, w = tlc.validate_batches("c07", "Reindex", slim, CFG, timeout=2400)
         states += st
         wall += w
@@ -706,10 +732,10 @@ def main(argv):
             stats[k] = stats.get(k, 0) + v
         samples += [recs[len(recs) // 5], recs[len(recs) // 2], recs[-1]]
     exercised = {k: int(v) for k, v in exercised.items()}
-    if min(exercised["faces_dropped"], exercised["vertices_merged"], exercised["several_parts"],
+    if not replay and (min(exercised["faces_dropped"], exercised["vertices_merged"], exercised["several_parts"],
            exercised["face_color_channel"], exercised["vertex_color_channel"], exercised["uv_channel"],
            exercised["vertex_normal_channel"], exercised["face_attribute_channel"],
-           exercised["vertex_attribute_channel"], exercised["meshes_of_more_than_16_faces"]) < 50 or min(stats.values()) < 20 or len(byop) < 12:
+           exercised["vertex_attribute_channel"], exercised["meshes_of_more_than_16_faces"]) < 50 or min(stats.values()) < 20 or len(byop) < 12):
         raise MachineryError(f"enumeration nearly empty: {exercised} {stats} {byop}")
     cov = {
         "states": states, "transitions": states,
@@ -733,7 +759,7 @@ def main(argv):
     return V.finish("model_checking", cov, assumptions=[
         "small scope: <= 4 faces over <= 6 vertex slots over <= 5 lattice positions (4 in general position, one on a "
         "segment) with quarter-unit twins and one NaN/inf slot; plus meshes of 17..22 faces over <= 24 slots (numpy "
-        "sorts switch algorithm above 16 elements); thorough adds meshes of <= 7 faces over <= 8 slots",
+        "sorts switch algorithm above 16 elements); thorough adds meshes of <= 6 faces over <= 8 slots",
         "slots of one position id differ by < 2e-9 (inside tol.merge); quarter-unit twins merge only at digits_vertex=0",
         "option values: digits_vertex in {None, 8, 6, 0}, digits_uv in {None, 1}, digits_norm in {None, 0}; "
         "merge_tex / merge_norm in {None, False, True}; only_watertight, append, repair in {False, True}",
